@@ -52,6 +52,30 @@ def holds (fields : List (Adt × List Ty)) (impls : List (Adt × Bool × Bool ×
 def verdict (sendT syncT : Bool) (tr : Tr) (a : Adt) : Bool :=
   holds adtFields unsafeAutoImpls sendT syncT 12 tr (.adt a)
 
+/-- `Unpin` for a type; `unpinT` = `T: Unpin`.  std's rules (trusted table, cross-checked by the compiler probes):
+    `PhantomPinned` is the one type that is not; raw pointers, `&`, `Box`, `Arc`, `VecDeque` are `Unpin` whatever they point to;
+    `UnsafeCell`, `MaybeUninit`, `Option`, `Pin`, lock_api's `Mutex` are structural; an ADT is `Unpin` iff it has an explicit impl
+    or all its fields are. -/
+def unpinHolds (fields : List (Adt × List Ty)) (impls : List Adt) (unpinT : Bool) : Nat → Ty → Bool
+  | 0, _ => false
+  | fuel + 1, t =>
+    let h := unpinHolds fields impls unpinT fuel
+    match t with
+    | .param => unpinT
+    | .prim | .atomic | .waker | .thread => true
+    | .phantomPinned => false
+    | .rawPtr _ | .ref _ | .box _ | .arc _ | .vecDeque _ => true
+    | .unsafeCell x | .maybeUninit x | .option x | .pin x => h x
+    | .mutex raw x => h raw && h x
+    | .adt a =>
+      impls.contains a ||
+      (match fields.find? (fun f => f.1 == a) with
+       | some (_, fs) => fs.all h
+       | none => false)
+    | .unknown => false
+
+def verdictUnpin (unpinT : Bool) (a : Adt) : Bool := unpinHolds adtFields unpinImpls unpinT 12 (.adt a)
+
 def handles : List Adt := [.Sender, .AsyncSender, .Receiver, .AsyncReceiver]
 def futures : List Adt := [.SendFuture, .ReceiveFuture, .ReceiveStream]
 
